@@ -63,5 +63,16 @@ GROUP = {
             r.value.negbit() == sign.negbit(),                                                                   // @amount_with_sign.takes_sign
             r.value.val() == (if sign.negbit() == amount.value.negbit() { amount.value.val() } else { -amount.value.val() }),   // @amount_with_sign.keeps_magnitude
 """),
+        ("text", "csv_roworder_stub.rs"),
+        U("callsite:row_order", CSV, [r"pub fn import<R: std::io::Read>"], fn="apply_row_order", no_canary=True,
+          slice=r"match config\.format\.row_order \{", slice_count=1,
+          slice_template="""fn apply_row_order(config: &RowOrderConfig, res: &mut Vec<TxnStub>)
+    ensures
+        // C16: rows come out oldest first under either row_order: a newest-first statement is reversed, an oldest-first one kept
+        config.format.row_order is OldToNew ==> final(res)@ == old(res)@,                  // @csv.import.old_to_new_kept
+        config.format.row_order is NewToOld ==> final(res)@ == old(res)@.reverse(),        // @csv.import.new_to_old_reversed
+{
+    {EXPR}
+}"""),
     ],
 }
